@@ -147,12 +147,18 @@ func (og *OverlapGenerator) GenerateOverlap(chunkText string) *OverlapResult {
 
 // generateCharacterOverlap extracts character-based overlap from the end of text
 func (og *OverlapGenerator) generateCharacterOverlap(text string) string {
-	if len(text) <= og.config.Size {
+	return og.characterTail(text, og.config.Size)
+}
+
+// characterTail returns the last size bytes of text, shortened to start at a
+// character (and, when PreserveWords is set, word) boundary
+func (og *OverlapGenerator) characterTail(text string, size int) string {
+	if len(text) <= size {
 		return text
 	}
 
 	// Start from target position, moved forward to the start of a character
-	start := len(text) - og.config.Size
+	start := len(text) - size
 	for start < len(text) && !utf8.RuneStart(text[start]) {
 		start++
 	}
@@ -243,44 +249,34 @@ func (og *OverlapGenerator) generateParagraphOverlap(text string) (string, int) 
 	return strings.TrimSpace(overlap.String()), sentenceCount
 }
 
-// truncateOverlap reduces overlap to fit within MaxOverlap while preserving sentences
+// truncateOverlap reduces overlap to fit within MaxOverlap while preserving sentences.
+// The overlap must remain the end of the chunk it was taken from, so the trailing
+// sentences are the ones kept.
 func (og *OverlapGenerator) truncateOverlap(overlap string) string {
 	if len(overlap) <= og.config.MaxOverlap {
 		return overlap
 	}
 
-	// Try to truncate at a sentence boundary
+	// Keep as many trailing sentences as fit within MaxOverlap
 	sentences := splitIntoSentencesWithPositions(overlap)
-	if len(sentences) == 0 {
-		// No sentences, truncate at word boundary
-		return og.generateCharacterOverlap(overlap[:og.config.MaxOverlap])
-	}
-
-	// Find how many sentences fit within MaxOverlap
-	var result strings.Builder
-	for _, s := range sentences {
-		test := result.String()
-		if result.Len() > 0 {
-			test += " "
+	result := ""
+	for i := len(sentences) - 1; i >= 0; i-- {
+		test := sentences[i].text
+		if result != "" {
+			test += " " + result
 		}
-		test += s.text
-
 		if len(test) > og.config.MaxOverlap {
 			break
 		}
-
-		if result.Len() > 0 {
-			result.WriteString(" ")
-		}
-		result.WriteString(s.text)
+		result = test
 	}
 
-	if result.Len() == 0 {
-		// First sentence exceeds max, truncate it
-		return og.generateCharacterOverlap(overlap[:og.config.MaxOverlap])
+	if result == "" {
+		// Even the last sentence exceeds max: keep the end of it
+		return og.characterTail(overlap, og.config.MaxOverlap)
 	}
 
-	return result.String()
+	return result
 }
 
 // sentenceWithPosition holds a sentence and its position in the original text
